@@ -1,8 +1,13 @@
 #!/bin/sh
-# tools_run_seeded.sh <patch> <prop> [<prop>...] : applies a patch to /repo, runs the quick checks, undoes it.
+# tools_run_seeded.sh <patch> <prop> [<prop>...] : applies a patch to a scratch copy of /repo/chi
+# (never to /repo itself, so that other runs are not disturbed), runs the quick checks against the
+# copy (DST_REPO), removes the copy.
 patch="$1"; shift
-git -C /repo apply "$patch" || { echo "patch does not apply"; exit 2; }
-trap 'git -C /repo checkout -- . ' EXIT
+scratch=$(mktemp -d "${TMPDIR:-/tmp}/dst-seeded-XXXXXX")
+trap 'rm -rf "$scratch"' EXIT
+mkdir -p "$scratch/repo"
+cp -r /repo/chi "$scratch/repo/chi"
+( cd "$scratch/repo" && patch -p1 -s -i "$patch" ) || { echo "patch does not apply"; exit 2; }
 for p in "$@"; do
-  /verif/check $p --no-evidence 2>&1 | grep -a -E "^C[0-9]+ tier|^VIOLATION|^  oracle|^HARNESS|^NOTE" | cut -c1-220 | head -8
+  DST_REPO="$scratch/repo" /verif/check $p --no-evidence 2>&1 | grep -a -E "^C[0-9]+ tier|^VIOLATION|^  oracle|^HARNESS|^NOTE" | cut -c1-220 | head -8
 done
